@@ -166,6 +166,23 @@ func c16CheckEncoded(r *vhlib.Run, payload []byte, mode meta.FinalMode, parts []
 			break
 		}
 	}
+	// ... and when a record header is taken with io.ReadFull and the rest with io.Copy (which uses
+	// an io.WriterTo of the Reader if it has one, as xflate's own io.Copy from the meta Reader would)
+	for _, head := range []int{1, 4, 12, len(payload) / 2} {
+		if head <= 0 || head >= len(payload) {
+			continue
+		}
+		mr := meta.NewReader(bytes.NewReader(enc))
+		hb := make([]byte, head)
+		_, herr := io.ReadFull(mr, hb)
+		var rest bytes.Buffer
+		_, cerr := io.Copy(&rest, io.Reader(mr))
+		got := append(hb, rest.Bytes()...)
+		if herr != nil || cerr != nil || !bytes.Equal(got, payload) || mr.FinalMode != mode || mr.OutputOffset != int64(len(payload)) {
+			r.Violate("roundtrip", fmt.Sprintf("ReadFull(%d) then io.Copy: %d of %d payload bytes, errs=%v/%v, mode=%d, OutputOffset=%d", head, len(got), len(payload), herr, cerr, int(mr.FinalMode), mr.OutputOffset), replay)
+			break
+		}
+	}
 	// oracle: silent in DEFLATE
 	if mode == meta.FinalStream {
 		out, _, used, err := stdInflate(enc)
